@@ -491,6 +491,20 @@ pub fn check_db(ctx: &mut Ctx, db: &'static Database, db_name: &str, items: &[St
         }
     }
     // ---------------- HTTP tables
+    // "the analyzer" is also the parallel one: two variants per signature are replayed, frame by
+    // frame (each awaited at the worker's processed point), through an HTTP worker pool loaded
+    // with the same database, on connections whose client and server share one address (a host
+    // talking to itself, a loopback capture) -- "any address and port choice".  The pool has to do
+    // as well as the sequential analyzer did on the same message.
+    let pool_lane: Option<crate::pool::Handle> = if ctx.miri() || db_name != "bundled" {
+        None
+    } else {
+        crate::pool::install_hooks();
+        crate::pool::reset_log(0, 0);
+        let cfg = crate::pool::PoolCfg { workers: 4, queue: 64, batch: 4, timeout_ms: 1, max_conn: 64, with_db: true };
+        crate::pool::Handle::new(crate::pool::PoolKind::Http, &cfg, crate::pool::Filters::none()).ok()
+    };
+    let mut pool_queued: u64 = 0;
     for (table, request, entries) in [("http:request", true, &db.http_request.entries), ("http:response", false, &db.http_response.entries)] {
         let flat: Vec<(&Label, &HSig)> = entries.iter().flat_map(|(l, sigs)| sigs.iter().map(move |s| (l, s))).collect();
         for (pos, (label, sig)) in flat.iter().enumerate() {
@@ -571,9 +585,62 @@ pub fn check_db(ctx: &mut Ctx, db: &'static Database, db_name: &str, items: &[St
                 } else if o.witness.is_none() {
                     o.witness = Some(json!({"message": String::from_utf8_lossy(&bytes), "reported": reported, "best_match": matched}));
                 }
+                // ---- pool lane (only where the sequential analyzer was right: differential)
+                if let (Some(h), true, true) = (pool_lane.as_ref(), acceptable, v == 3 || v == 12) {
+                    let addr = if v == 3 { [127, 0, 0, 1] } else { [10, 4, (idx >> 8) as u8, idx as u8] };
+                    let cport = 1025 + ((idx * 977 + v * 131) % 60000) as u16;
+                    let ep = Endpoints::v4(addr, cport, addr, 80);
+                    let mut s2 = Script::new(ep, Link::Ethernet, r.u32(), r.u32());
+                    s2.handshake();
+                    if request {
+                        s2.c_data(&bytes);
+                    } else {
+                        s2.c_data(b"GET / HTTP/1.1\r\nHost: a\r\n\r\n");
+                        s2.s_data(&bytes);
+                    }
+                    let mut lost = 0u32;
+                    for f in &s2.frames {
+                        if !h.dispatch(f.clone()) {
+                            lost += 1;
+                            continue;
+                        }
+                        pool_queued += 1;
+                        if h.wait_drain(pool_queued, std::time::Duration::from_secs(30)) != crate::pool::Drain::Complete {
+                            pool_queued = crate::pool::log().processed.load(std::sync::atomic::Ordering::SeqCst);
+                            lost += 1;
+                        }
+                    }
+                    let mut pm: Option<String> = None;
+                    let mut preported = false;
+                    if let crate::pool::Handle::Http(_, rx) = h {
+                        for res in rx.try_iter() {
+                            if request {
+                                if let Some(q) = res.http_request {
+                                    preported = true;
+                                    pm = q.browser_matched.browser.map(|b| format!("{}|{:?}|{:?}", b.name, b.family, b.variant));
+                                }
+                            } else if let Some(q) = res.http_response {
+                                preported = true;
+                                pm = q.web_server_matched.web_server.map(|b| format!("{}|{:?}|{:?}", b.name, b.family, b.variant));
+                            }
+                        }
+                    }
+                    let o = by_class.entry("parallel analyzer (4 workers), client and server on one address".to_string()).or_insert(Outcome { ok: 0, tried: 0, witness: None });
+                    o.tried += 1;
+                    if pm == matched {
+                        o.ok += 1;
+                    } else if o.witness.is_none() {
+                        o.witness = Some(json!({"message": String::from_utf8_lossy(&bytes), "endpoints": format!("{}:{} <-> {}:80", std::net::Ipv4Addr::from(addr), cport, std::net::Ipv4Addr::from(addr)),
+                                                "reported_by_pool": preported, "best_match_pool": pm, "best_match_sequential": matched, "frames_not_processed": lost}));
+                    }
+                }
             }
             report(ctx, db_name, table, label, &sig.to_string(), by_class, items);
         }
+    }
+    if let Some(h) = pool_lane {
+        h.shutdown();
+        let _ = crate::pool::take_events();
     }
 }
 
@@ -610,6 +677,53 @@ fn report(ctx: &mut Ctx, db_name: &str, table: &str, label: &Label, sig: &str, b
     }
 }
 
+/// The database text with every `sig` line of 1..3 seeded labels per signature section commented
+/// out (the labels stay, without signatures; never only the last label of a section).  Returns
+/// the text and the stripped labels.
+pub fn strip_label_signatures(text: &str, r: &mut Rng) -> (String, Vec<String>) {
+    let mut section = String::new();
+    let mut counts: BTreeMap<String, usize> = BTreeMap::new();
+    for l in text.lines() {
+        let t = l.trim();
+        if t.starts_with('[') {
+            section = t.to_string();
+        } else if t.starts_with("label") && (section.starts_with("[tcp:") || section.starts_with("[http:")) {
+            *counts.entry(section.clone()).or_insert(0) += 1;
+        }
+    }
+    let mut victims: BTreeMap<String, Vec<usize>> = BTreeMap::new();
+    for (sec, n) in &counts {
+        let k = 1 + r.usize(3);
+        // never the last label only: the labels after a stripped one are the interesting ones
+        victims.insert(sec.clone(), (0..k).map(|_| r.usize((*n).max(2) - 1)).collect());
+    }
+    let mut out = String::with_capacity(text.len() + 4096);
+    let mut ord: isize = -1;
+    let mut stripped_labels: Vec<String> = Vec::new();
+    section.clear();
+    for l in text.lines() {
+        let t = l.trim();
+        if t.starts_with('[') {
+            section = t.to_string();
+            ord = -1;
+        }
+        let in_sig_section = section.starts_with("[tcp:") || section.starts_with("[http:");
+        if in_sig_section && t.starts_with("label") {
+            ord += 1;
+            if victims.get(&section).map(|v| v.contains(&(ord as usize))).unwrap_or(false) {
+                stripped_labels.push(format!("{section} {t}"));
+            }
+        }
+        let victim = in_sig_section && ord >= 0 && victims.get(&section).map(|v| v.contains(&(ord as usize))).unwrap_or(false);
+        if victim && t.starts_with("sig") {
+            out.push_str("; ");
+        }
+        out.push_str(l);
+        out.push('\n');
+    }
+    (out, stripped_labels)
+}
+
 /// "Any database in the same format": databases derived from the bundled text by commenting out
 /// every `sig` line of a few seeded labels (the labels stay, without signatures).  Removing other
 /// labels' signatures only removes competitors, so traffic that the bundled database matches to
@@ -626,47 +740,7 @@ fn derived_dbs(ctx: &mut Ctx) {
     let rounds = ctx.scale(1, 8, 0);
     for round in 0..rounds {
         let mut r = ctx.rng(1390 + round);
-        // ---- derive: strip the signatures of 1..3 labels in each signature section
-        let mut counts: BTreeMap<String, usize> = BTreeMap::new();
-        let mut section = String::new();
-        for l in text.lines() {
-            let t = l.trim();
-            if t.starts_with('[') {
-                section = t.to_string();
-            } else if t.starts_with("label") && (section.starts_with("[tcp:") || section.starts_with("[http:")) {
-                *counts.entry(section.clone()).or_insert(0) += 1;
-            }
-        }
-        let mut victims: BTreeMap<String, Vec<usize>> = BTreeMap::new();
-        for (sec, n) in &counts {
-            let k = 1 + r.usize(3);
-            // never the last label only: the labels after a stripped one are the interesting ones
-            victims.insert(sec.clone(), (0..k).map(|_| r.usize((*n).max(2) - 1)).collect());
-        }
-        let mut out = String::with_capacity(text.len() + 4096);
-        let mut ord: isize = -1;
-        let mut stripped_labels: Vec<String> = Vec::new();
-        section.clear();
-        for l in text.lines() {
-            let t = l.trim();
-            if t.starts_with('[') {
-                section = t.to_string();
-                ord = -1;
-            }
-            let in_sig_section = section.starts_with("[tcp:") || section.starts_with("[http:");
-            if in_sig_section && t.starts_with("label") {
-                ord += 1;
-                if victims.get(&section).map(|v| v.contains(&(ord as usize))).unwrap_or(false) {
-                    stripped_labels.push(format!("{section} {t}"));
-                }
-            }
-            let victim = in_sig_section && ord >= 0 && victims.get(&section).map(|v| v.contains(&(ord as usize))).unwrap_or(false);
-            if victim && t.starts_with("sig") {
-                out.push_str("; ");
-            }
-            out.push_str(l);
-            out.push('\n');
-        }
+        let (out, stripped_labels) = strip_label_signatures(&text, &mut r);
         let derived = match guard(|| out.parse::<Database>()) {
             Ok(Ok(d)) => std::sync::Arc::new(d),
             other => {
@@ -798,6 +872,7 @@ pub fn spec() -> PropSpec {
         shards: super::shards_16,
         rule: "for each of the TCP request/response and HTTP request/response signatures of the bundled database, conforming traffic is synthesised (TCP: IPv4/IPv6, hop counts 0..30, admissible MSS/scale values, windows realising the window form, option bytes realising the layout, header bits realising exactly the listed quirks; HTTP: listed headers in order with optional headers in/out, values exact or as substrings of longer values, software string exact or inside a longer string) and analysed at packet level; the best match must be the signature's own label or the label of an earlier entry the traffic conforms to under a p0f-level predicate; a bucket is a distinct (table, label, variant class)",
         assumptions: &[
+            "pool lane: two variants per HTTP signature through a 4-worker HTTP pool with the database on connections whose ends share one address; judged differentially (only where the sequential analyzer matched acceptably), class 'parallel analyzer (4 workers), client and server on one address'",
             "variant classes: TCP (IP version, hop count 0 / 1..30); HTTP (values exact / as substrings, software string exact / inside a longer string)",
             "signatures whose layout cannot be put on the wire without extra padding, or whose quirks contradict their own fields, are reported as 'unconstructible'",
             "derived databases: the bundled text with every sig line of 1..3 seeded labels per section commented out; judged there is the traffic that the bundled database matches to its signature's own label (removing other labels' signatures only removes competitors)",
